@@ -7,17 +7,3 @@ Set Printing Width 100000000.
 Set Printing Depth 100000000.
 Fixpoint bs (l : list nat) : string := match l with [] => EmptyString | n :: r => String (Ascii.ascii_of_nat n) (bs r) end.
 Definition T_ (b : bool) : string := if b then "T" else "F".
-Definition t202 : pt := (mkPacket (mkPtok 37 "MetaData" 1 0 0) (Some (mkPtok 3 "}" 57 0 173)) [(DMeta (mkMetaDef (mkSpan (mkPtok 37 "MetaData" 1 0 0) (mkPtok 3 "}" 5 0 13)) (mkPtok 37 "MetaData" 1 0 0) (mkPtok 42 "Common" 1 9 1) (mkPtok 2 "{" 1 16 2) [(MIDecl (mkMetaDecl (mkSpan (mkPtok 12 "char[" 2 4 3) (mkPtok 40 "," 2 19 7)) (TyFixed (mkSpan (mkPtok 12 "char[" 2 4 3) (mkPtok 13 "]" 2 12 5)) (mkFixedString (mkSpan (mkPtok 12 "char[" 2 4 3) (mkPtok 13 "]" 2 12 5)) (mkPtok 12 "char[" 2 4 3) (mkPtok 30 "3" 2 10 4) (mkPtok 13 "]" 2 12 5))) (mkPtok 42 "Side" 2 14 6) None (mkPtok 40 "," 2 19 7))); (MIDecl (mkMetaDecl (mkSpan (mkPtok 29 "f64" 3 4 8) (mkPtok 40 "," 4 7 11)) (TyBasic (mkSpan (mkPtok 29 "f64" 3 4 8) (mkPtok 29 "f64" 3 4 8)) (mkBasicType (mkSpan (mkPtok 29 "f64" 3 4 8) (mkPtok 29 "f64" 3 4 8)) (mkPtok 29 "f64" 3 4 8))) (mkPtok 42 "Text" 3 8 9) (Some (mkPtok 43 (string_of_bytes [96; 108; 105; 110; 101; 49; 10; 108; 105; 110; 101; 50; 96]%N) 3 13 10)) (mkPtok 40 "," 4 7 11)))] (mkPtok 3 "}" 5 0 13))); (DPacket (mkPacketDef (mkSpan (mkPtok 35 "packet" 6 0 14) (mkPtok 3 "}" 9 0 24)) None (mkPtok 35 "packet" 6 0 14) (mkPtok 42 "NewOrder" 6 7 15) (mkPtok 2 "{" 6 16 16) [(mkFieldWithAttr (mkSpan (mkPtok 9 "@tag(" 7 4 17) (mkPtok 40 "," 8 17 23)) [(FATag (mkSpan (mkPtok 9 "@tag(" 7 4 17) (mkPtok 6 ")" 7 15 19)) (mkTagAttr (mkSpan (mkPtok 9 "@tag(" 7 4 17) (mkPtok 6 ")" 7 15 19)) (mkPtok 9 "@tag(" 7 4 17) (mkPtok 30 "1128" 7 10 18) (mkPtok 6 ")" 7 15 19)))] (MetaField (mkSpan (mkPtok 23 "uint64" 8 4 20) (mkPtok 40 "," 8 17 23)) None (mkMetaDecl (mkSpan (mkPtok 23 "uint64" 8 4 20) (mkPtok 40 "," 8 17 23)) (TyBasic (mkSpan (mkPtok 23 "uint64" 8 4 20) (mkPtok 23 "uint64" 8 4 20)) (mkBasicType (mkSpan (mkPtok 23 "uint64" 8 4 20) (mkPtok 23 "uint64" 8 4 20)) (mkPtok 23 "uint64" 8 4 20))) (mkPtok 42 "px" 8 11 21) (Some (mkPtok 43 "``" 8 14 22)) (mkPtok 40 "," 8 17 23))))] (mkPtok 3 "}" 9 0 24))); (DPacket (mkPacketDef (mkSpan (mkPtok 34 "root" 11 0 25) (mkPtok 3 "}" 16 0 47)) (Some (mkPtok 34 "root" 11 0 25)) (mkPtok 35 "packet" 11 5 26) (mkPtok 42 "Snapshot" 11 12 27) (mkPtok 2 "{" 11 21 28) [(mkFieldWithAttr (mkSpan (mkPtok 42 "Text" 12 4 29) (mkPtok 40 "," 12 11 31)) [] (ObjectField (mkSpan (mkPtok 42 "Text" 12 4 29) (mkPtok 40 "," 12 11 31)) None (mkPtok 42 "Text" 12 4 29) (Some (mkPtok 42 "a" 12 9 30)) None (mkPtok 40 "," 12 11 31))); (mkFieldWithAttr (mkSpan (mkPtok 32 "@rightPad" 13 4 32) (mkPtok 40 "," 14 14 40)) [(FAPadding (mkSpan (mkPtok 32 "@rightPad" 13 4 32) (mkPtok 6 ")" 13 16 34)) (mkPaddingAttr (mkSpan (mkPtok 32 "@rightPad" 13 4 32) (mkPtok 6 ")" 13 16 34)) (mkPtok 32 "@rightPad" 13 4 32) (mkPtok 8 "(" 13 14 33) None (mkPtok 6 ")" 13 16 34))); (FATag (mkSpan (mkPtok 9 "@tag(" 13 18 35) (mkPtok 6 ")" 13 27 37)) (mkTagAttr (mkSpan (mkPtok 9 "@tag(" 13 18 35) (mkPtok 6 ")" 13 27 37)) (mkPtok 9 "@tag(" 13 18 35) (mkPtok 30 "35" 13 24 36) (mkPtok 6 ")" 13 27 37)))] (ObjectField (mkSpan (mkPtok 42 "Side" 14 4 38) (mkPtok 40 "," 14 14 40)) None (mkPtok 42 "Side" 14 4 38) (Some (mkPtok 42 "code" 14 9 39)) None (mkPtok 40 "," 14 14 40))); (mkFieldWithAttr (mkSpan (mkPtok 5 "@calculatedFrom(" 15 4 41) (mkPtok 40 "," 15 43 46)) [(FACalculatedFrom (mkSpan (mkPtok 5 "@calculatedFrom(" 15 4 41) (mkPtok 6 ")" 15 29 43)) (mkCalculatedFrom (mkSpan (mkPtok 5 "@calculatedFrom(" 15 4 41) (mkPtok 6 ")" 15 29 43)) (mkPtok 5 "@calculatedFrom(" 15 4 41) (mkPtok 31 """CRC32""" 15 21 42) (mkPtok 6 ")" 15 29 43)))] (MetaField (mkSpan (mkPtok 20 "u8" 15 31 44) (mkPtok 40 "," 15 43 46)) None (mkMetaDecl (mkSpan (mkPtok 20 "u8" 15 31 44) (mkPtok 40 "," 15 43 46)) (TyBasic (mkSpan (mkPtok 20 "u8" 15 31 44) (mkPtok 20 "u8" 15 31 44)) (mkBasicType (mkSpan (mkPtok 20 "u8" 15 31 44) (mkPtok 20 "u8" 15 31 44)) (mkPtok 20 "u8" 15 31 44))) (mkPtok 42 "checksum" 15 34 45) None (mkPtok 40 "," 15 43 46))))] (mkPtok 3 "}" 16 0 47))); (DPacket (mkPacketDef (mkSpan (mkPtok 35 "packet" 18 0 49) (mkPtok 3 "}" 22 0 63)) None (mkPtok 35 "packet" 18 0 49) (mkPtok 42 "Logon" 18 7 50) (mkPtok 2 "{" 18 13 51) [(mkFieldWithAttr (mkSpan (mkPtok 20 "u8" 19 4 52) (mkPtok 40 "," 19 17 55)) [] (MetaField (mkSpan (mkPtok 20 "u8" 19 4 52) (mkPtok 40 "," 19 17 55)) None (mkMetaDecl (mkSpan (mkPtok 20 "u8" 19 4 52) (mkPtok 40 "," 19 17 55)) (TyBasic (mkSpan (mkPtok 20 "u8" 19 4 52) (mkPtok 20 "u8" 19 4 52)) (mkBasicType (mkSpan (mkPtok 20 "u8" 19 4 52) (mkPtok 20 "u8" 19 4 52)) (mkPtok 20 "u8" 19 4 52))) (mkPtok 42 "side" 19 7 53) (Some (mkPtok 43 (string_of_bytes [96; 230; 182; 136; 230; 129; 175; 96]%N) 19 12 54)) (mkPtok 40 "," 19 17 55)))); (mkFieldWithAttr (mkSpan (mkPtok 20 "uint8" 20 4 56) (mkPtok 40 "," 20 16 58)) [] (MetaField (mkSpan (mkPtok 20 "uint8" 20 4 56) (mkPtok 40 "," 20 16 58)) None (mkMetaDecl (mkSpan (mkPtok 20 "uint8" 20 4 56) (mkPtok 40 "," 20 16 58)) (TyBasic (mkSpan (mkPtok 20 "uint8" 20 4 56) (mkPtok 20 "uint8" 20 4 56)) (mkBasicType (mkSpan (mkPtok 20 "uint8" 20 4 56) (mkPtok 20 "uint8" 20 4 56)) (mkPtok 20 "uint8" 20 4 56))) (mkPtok 42 "venue" 20 10 57) None (mkPtok 40 "," 20 16 58)))); (mkFieldWithAttr (mkSpan (mkPtok 36 "repeat" 21 4 59) (mkPtok 40 "," 21 25 62)) [] (MetaField (mkSpan (mkPtok 36 "repeat" 21 4 59) (mkPtok 40 "," 21 25 62)) (Some (mkPtok 36 "repeat" 21 4 59)) (mkMetaDecl (mkSpan (mkPtok 29 "float64" 21 11 60) (mkPtok 40 "," 21 25 62)) (TyBasic (mkSpan (mkPtok 29 "float64" 21 11 60) (mkPtok 29 "float64" 21 11 60)) (mkBasicType (mkSpan (mkPtok 29 "float64" 21 11 60) (mkPtok 29 "float64" 21 11 60)) (mkPtok 29 "float64" 21 11 60))) (mkPtok 42 "price" 21 19 61) None (mkPtok 40 "," 21 25 62))))] (mkPtok 3 "}" 22 0 63))); (DPacket (mkPacketDef (mkSpan (mkPtok 35 "packet" 24 0 64) (mkPtok 3 "}" 39 0 109)) None (mkPtok 35 "packet" 24 0 64) (mkPtok 42 "Party" 24 7 65) (mkPtok 2 "{" 24 13 66) [(mkFieldWithAttr (mkSpan (mkPtok 19 "char" 25 4 67) (mkPtok 40 "," 25 18 69)) [] (MetaField (mkSpan (mkPtok 19 "char" 25 4 67) (mkPtok 40 "," 25 18 69)) None (mkMetaDecl (mkSpan (mkPtok 19 "char" 25 4 67) (mkPtok 40 "," 25 18 69)) (TyBasic (mkSpan (mkPtok 19 "char" 25 4 67) (mkPtok 19 "char" 25 4 67)) (mkBasicType (mkSpan (mkPtok 19 "char" 25 4 67) (mkPtok 19 "char" 25 4 67)) (mkPtok 19 "char" 25 4 67))) (mkPtok 42 "msg_type" 25 9 68) None (mkPtok 40 "," 25 18 69)))); (mkFieldWithAttr (mkSpan (mkPtok 42 "Side" 26 4 70) (mkPtok 40 "," 26 9 71)) [] (ObjectField (mkSpan (mkPtok 42 "Side" 26 4 70) (mkPtok 40 "," 26 9 71)) None (mkPtok 42 "Side" 26 4 70) None None (mkPtok 40 "," 26 9 71))); (mkFieldWithAttr (mkSpan (mkPtok 9 "@tag(" 27 4 72) (mkPtok 40 "," 27 20 76)) [(FATag (mkSpan (mkPtok 9 "@tag(" 27 4 72) (mkPtok 6 ")" 27 13 74)) (mkTagAttr (mkSpan (mkPtok 9 "@tag(" 27 4 72) (mkPtok 6 ")" 27 13 74)) (mkPtok 9 "@tag(" 27 4 72) (mkPtok 30 "35" 27 10 73) (mkPtok 6 ")" 27 13 74)))] (ObjectField (mkSpan (mkPtok 42 "Text" 27 15 75) (mkPtok 40 "," 27 20 76)) None (mkPtok 42 "Text" 27 15 75) None None (mkPtok 40 "," 27 20 76))); (mkFieldWithAttr (mkSpan (mkPtok 36 "repeat" 28 4 77) (mkPtok 40 "," 36 6 99)) [] (InerObjectField (mkSpan (mkPtok 36 "repeat" 28 4 77) (mkPtok 40 "," 36 6 99)) (Some (mkPtok 36 "repeat" 28 4 77)) (InerObjectDecl (mkSpan (mkPtok 42 "Group" 28 11 78) (mkPtok 3 "}" 36 4 98)) (mkPtok 42 "Group" 28 11 78) (mkPtok 2 "{" 28 17 79) [(MetaField (mkSpan (mkPtok 27 "int64" 29 8 80) (mkPtok 40 "," 30 7 83)) None (mkMetaDecl (mkSpan (mkPtok 27 "int64" 29 8 80) (mkPtok 40 "," 30 7 83)) (TyBasic (mkSpan (mkPtok 27 "int64" 29 8 80) (mkPtok 27 "int64" 29 8 80)) (mkBasicType (mkSpan (mkPtok 27 "int64" 29 8 80) (mkPtok 27 "int64" 29 8 80)) (mkPtok 27 "int64" 29 8 80))) (mkPtok 42 "code" 29 14 81) (Some (mkPtok 43 (string_of_bytes [96; 108; 105; 110; 101; 49; 10; 108; 105; 110; 101; 50; 96]%N) 29 19 82)) (mkPtok 40 "," 30 7 83))); (InerObjectField (mkSpan (mkPtok 42 "Sub" 31 8 84) (mkPtok 40 "," 35 10 97)) None (InerObjectDecl (mkSpan (mkPtok 42 "Sub" 31 8 84) (mkPtok 3 "}" 35 8 96)) (mkPtok 42 "Sub" 31 8 84) (mkPtok 2 "{" 31 12 85) [(MetaField (mkSpan (mkPtok 16 "char[]" 32 12 86) (mkPtok 40 "," 32 24 88)) None (mkMetaDecl (mkSpan (mkPtok 16 "char[]" 32 12 86) (mkPtok 40 "," 32 24 88)) (TyDynamic (mkSpan (mkPtok 16 "char[]" 32 12 86) (mkPtok 16 "char[]" 32 12 86)) (mkDynamicString (mkSpan (mkPtok 16 "char[]" 32 12 86) (mkPtok 16 "char[]" 32 12 86)) (mkPtok 16 "char[]" 32 12 86))) (mkPtok 42 "side" 32 19 87) None (mkPtok 40 "," 32 24 88))); (MetaField (mkSpan (mkPtok 36 "repeat" 33 12 89) (mkPtok 40 "," 34 7 95)) (Some (mkPtok 36 "repeat" 33 12 89)) (mkMetaDecl (mkSpan (mkPtok 12 "char[" 33 19 90) (mkPtok 40 "," 34 7 95)) (TyFixed (mkSpan (mkPtok 12 "char[" 33 19 90) (mkPtok 13 "]" 33 27 92)) (mkFixedString (mkSpan (mkPtok 12 "char[" 33 19 90) (mkPtok 13 "]" 33 27 92)) (mkPtok 12 "char[" 33 19 90) (mkPtok 30 "3" 33 25 91) (mkPtok 13 "]" 33 27 92))) (mkPtok 42 "count" 33 29 93) (Some (mkPtok 43 (string_of_bytes [96; 108; 105; 110; 101; 49; 10; 108; 105; 110; 101; 50; 96]%N) 33 35 94)) (mkPtok 40 "," 34 7 95)))] (mkPtok 3 "}" 35 8 96)) (mkPtok 40 "," 35 10 97))] (mkPtok 3 "}" 36 4 98)) (mkPtok 40 "," 36 6 99))); (mkFieldWithAttr (mkSpan (mkPtok 42 "Side" 37 4 100) (mkPtok 40 "," 37 17 102)) [] (ObjectField (mkSpan (mkPtok 42 "Side" 37 4 100) (mkPtok 40 "," 37 17 102)) None (mkPtok 42 "Side" 37 4 100) (Some (mkPtok 42 "account" 37 9 101)) None (mkPtok 40 "," 37 17 102))); (mkFieldWithAttr (mkSpan (mkPtok 21 "uint16" 38 4 103) (mkPtok 40 "," 38 46 108)) [] (CheckSumField (mkSpan (mkPtok 21 "uint16" 38 4 103) (mkPtok 40 "," 38 46 108)) (mkChecksumFieldDecl (mkSpan (mkPtok 21 "uint16" 38 4 103) (mkPtok 40 "," 38 46 108)) (Some (TyBasic (mkSpan (mkPtok 21 "uint16" 38 4 103) (mkPtok 21 "uint16" 38 4 103)) (mkBasicType (mkSpan (mkPtok 21 "uint16" 38 4 103) (mkPtok 21 "uint16" 38 4 103)) (mkPtok 21 "uint16" 38 4 103)))) (mkPtok 42 "Checksum" 38 11 104) (mkCalculatedFrom (mkSpan (mkPtok 5 "@calculatedFrom(" 38 20 105) (mkPtok 6 ")" 38 44 107)) (mkPtok 5 "@calculatedFrom(" 38 20 105) (mkPtok 31 """SUM8""" 38 37 106) (mkPtok 6 ")" 38 44 107)) None (mkPtok 40 "," 38 46 108))))] (mkPtok 3 "}" 39 0 109))); (DPacket (mkPacketDef (mkSpan (mkPtok 35 "packet" 41 0 111) (mkPtok 3 "}" 57 0 173)) None (mkPtok 35 "packet" 41 0 111) (mkPtok 42 "Logout" 41 7 112) (mkPtok 2 "{" 41 14 113) [(mkFieldWithAttr (mkSpan (mkPtok 19 "char" 42 4 114) (mkPtok 40 "," 43 7 117)) [] (MetaField (mkSpan (mkPtok 19 "char" 42 4 114) (mkPtok 40 "," 43 7 117)) None (mkMetaDecl (mkSpan (mkPtok 19 "char" 42 4 114) (mkPtok 40 "," 43 7 117)) (TyBasic (mkSpan (mkPtok 19 "char" 42 4 114) (mkPtok 19 "char" 42 4 114)) (mkBasicType (mkSpan (mkPtok 19 "char" 42 4 114) (mkPtok 19 "char" 42 4 114)) (mkPtok 19 "char" 42 4 114))) (mkPtok 42 "user" 42 9 115) (Some (mkPtok 43 (string_of_bytes [96; 108; 105; 110; 101; 49; 10; 108; 105; 110; 101; 50; 96]%N) 42 14 116)) (mkPtok 40 "," 43 7 117)))); (mkFieldWithAttr (mkSpan (mkPtok 9 "@tag(" 44 4 118) (mkPtok 40 "," 44 23 123)) [(FATag (mkSpan (mkPtok 9 "@tag(" 44 4 118) (mkPtok 6 ")" 44 12 120)) (mkTagAttr (mkSpan (mkPtok 9 "@tag(" 44 4 118) (mkPtok 6 ")" 44 12 120)) (mkPtok 9 "@tag(" 44 4 118) (mkPtok 30 "7" 44 10 119) (mkPtok 6 ")" 44 12 120)))] (ObjectField (mkSpan (mkPtok 42 "Text" 44 14 121) (mkPtok 40 "," 44 23 123)) None (mkPtok 42 "Text" 44 14 121) (Some (mkPtok 42 "seq" 44 19 122)) None (mkPtok 40 "," 44 23 123))); (mkFieldWithAttr (mkSpan (mkPtok 12 "char[" 45 4 124) (mkPtok 40 "," 46 7 129)) [] (MetaField (mkSpan (mkPtok 12 "char[" 45 4 124) (mkPtok 40 "," 46 7 129)) None (mkMetaDecl (mkSpan (mkPtok 12 "char[" 45 4 124) (mkPtok 40 "," 46 7 129)) (TyFixed (mkSpan (mkPtok 12 "char[" 45 4 124) (mkPtok 13 "]" 45 12 126)) (mkFixedString (mkSpan (mkPtok 12 "char[" 45 4 124) (mkPtok 13 "]" 45 12 126)) (mkPtok 12 "char[" 45 4 124) (mkPtok 30 "2" 45 10 125) (mkPtok 13 "]" 45 12 126))) (mkPtok 42 "msg_type" 45 14 127) (Some (mkPtok 43 (string_of_bytes [96; 108; 105; 110; 101; 49; 10; 108; 105; 110; 101; 50; 96]%N) 45 23 128)) (mkPtok 40 "," 46 7 129)))); (mkFieldWithAttr (mkSpan (mkPtok 38 "match" 47 4 130) (mkPtok 40 "," 53 6 160)) [] (MatchField (mkSpan (mkPtok 38 "match" 47 4 130) (mkPtok 40 "," 53 6 160)) (mkMatchFieldDecl (mkSpan (mkPtok 38 "match" 47 4 130) (mkPtok 3 "}" 53 4 159)) (mkPtok 38 "match" 47 4 130) (mkPtok 42 "msg_type" 47 10 131) (mkPtok 17 "as" 47 19 132) (mkPtok 42 "Data" 47 22 133) (mkPtok 2 "{" 47 27 134) [(mkMatchPair (mkSpan (mkPtok 31 """A""" 48 8 135) (mkPtok 42 "Snapshot" 48 14 137)) (MKString (mkPtok 31 """A""" 48 8 135)) (mkPtok 39 ":" 48 12 136) (mkPtok 42 "Snapshot" 48 14 137) None); (mkMatchPair (mkSpan (mkPtok 18 "[" 49 8 138) (mkPtok 42 "Party" 50 17 144)) (MKList (mkKeyList (mkSpan (mkPtok 18 "[" 49 8 138) (mkPtok 13 "]" 50 13 142)) (mkPtok 18 "[" 49 8 138) (mkPtok 31 """F""" 49 10 139) [((mkPtok 40 "," 49 14 140), (mkPtok 31 """G""" 50 9 141))] (mkPtok 13 "]" 50 13 142))) (mkPtok 39 ":" 50 15 143) (mkPtok 42 "Party" 50 17 144) None); (mkMatchPair (mkSpan (mkPtok 18 "[" 51 8 145) (mkPtok 40 "," 51 40 154)) (MKList (mkKeyList (mkSpan (mkPtok 18 "[" 51 8 145) (mkPtok 13 "]" 51 27 151)) (mkPtok 18 "[" 51 8 145) (mkPtok 31 """D""" 51 10 146) [((mkPtok 40 "," 51 14 147), (mkPtok 31 """B""" 51 16 148)); ((mkPtok 40 "," 51 20 149), (mkPtok 31 """AE""" 51 22 150))] (mkPtok 13 "]" 51 27 151))) (mkPtok 39 ":" 51 29 152) (mkPtok 42 "Snapshot" 51 31 153) (Some (mkPtok 40 "," 51 40 154))); (mkMatchPair (mkSpan (mkPtok 31 """8""" 52 8 155) (mkPtok 40 "," 52 20 158)) (MKString (mkPtok 31 """8""" 52 8 155)) (mkPtok 39 ":" 52 12 156) (mkPtok 42 "Logon" 52 14 157) (Some (mkPtok 40 "," 52 20 158)))] (mkPtok 3 "}" 53 4 159)) (mkPtok 40 "," 53 6 160))); (mkFieldWithAttr (mkSpan (mkPtok 9 "@tag(" 54 4 161) (mkPtok 40 "," 55 11 166)) [(FATag (mkSpan (mkPtok 9 "@tag(" 54 4 161) (mkPtok 6 ")" 54 12 163)) (mkTagAttr (mkSpan (mkPtok 9 "@tag(" 54 4 161) (mkPtok 6 ")" 54 12 163)) (mkPtok 9 "@tag(" 54 4 161) (mkPtok 30 "1" 54 10 162) (mkPtok 6 ")" 54 12 163)))] (MetaField (mkSpan (mkPtok 24 "i8" 55 4 164) (mkPtok 40 "," 55 11 166)) None (mkMetaDecl (mkSpan (mkPtok 24 "i8" 55 4 164) (mkPtok 40 "," 55 11 166)) (TyBasic (mkSpan (mkPtok 24 "i8" 55 4 164) (mkPtok 24 "i8" 55 4 164)) (mkBasicType (mkSpan (mkPtok 24 "i8" 55 4 164) (mkPtok 24 "i8" 55 4 164)) (mkPtok 24 "i8" 55 4 164))) (mkPtok 42 "qty" 55 7 165) None (mkPtok 40 "," 55 11 166)))); (mkFieldWithAttr (mkSpan (mkPtok 21 "uint16" 56 4 167) (mkPtok 40 "," 56 41 172)) [] (CheckSumField (mkSpan (mkPtok 21 "uint16" 56 4 167) (mkPtok 40 "," 56 41 172)) (mkChecksumFieldDecl (mkSpan (mkPtok 21 "uint16" 56 4 167) (mkPtok 40 "," 56 41 172)) (Some (TyBasic (mkSpan (mkPtok 21 "uint16" 56 4 167) (mkPtok 21 "uint16" 56 4 167)) (mkBasicType (mkSpan (mkPtok 21 "uint16" 56 4 167) (mkPtok 21 "uint16" 56 4 167)) (mkPtok 21 "uint16" 56 4 167)))) (mkPtok 42 "crc" 56 11 168) (mkCalculatedFrom (mkSpan (mkPtok 5 "@calculatedFrom(" 56 15 169) (mkPtok 6 ")" 56 39 171)) (mkPtok 5 "@calculatedFrom(" 56 15 169) (mkPtok 31 """SUM8""" 56 32 170) (mkPtok 6 ")" 56 39 171)) None (mkPtok 40 "," 56 41 172))))] (mkPtok 3 "}" 57 0 173)))]).
-Eval vm_compute in ("<<<W202_alias_short>>>" ++ sh_escaped (render (rw_alias_short t202)) "").
-Eval vm_compute in ("<<<W202_alias_long>>>" ++ sh_escaped (render (rw_alias_long t202)) "").
-Eval vm_compute in ("<<<W202_alias_long_opts>>>" ++ sh_escaped (render (rw_alias_long_opts t202)) "").
-Eval vm_compute in ("<<<W202_zchar>>>" ++ sh_escaped (render (rw_zchar t202)) "").
-Eval vm_compute in ("<<<W202_drop_default_pad>>>" ++ sh_escaped (render (rw_drop_default_pad t202)) "").
-Eval vm_compute in ("<<<W202_add_default_pad>>>" ++ sh_escaped (render (rw_add_default_pad t202)) "").
-Eval vm_compute in ("<<<W202_prefix_attr>>>" ++ sh_escaped (render (rw_prefix_attr t202)) "").
-Eval vm_compute in ("<<<W202_default_options>>>" ++ sh_escaped (render (rw_default_options t202)) "").
-Eval vm_compute in ("<<<W202_expand_keys>>>" ++ sh_escaped (render (rw_expand_keys t202)) "").
-Eval vm_compute in ("<<<W202_inline_meta>>>" ++ sh_escaped (render (rw_inline_meta t202)) "").
-Eval vm_compute in ("<<<W202_seps_all>>>" ++ sh_escaped (render (rw_seps_all t202)) "").
-Eval vm_compute in ("<<<W202_seps_none>>>" ++ sh_escaped (render (rw_seps_none t202)) "").
-Eval vm_compute in ("<<<W202_drop_docs>>>" ++ sh_escaped (render (rw_drop_docs t202)) "").
